@@ -6,6 +6,20 @@ import sys, os, json, shutil, subprocess, tempfile
 ROOT = os.path.dirname(os.path.dirname(os.path.abspath(__file__)))
 CAT = json.load(open(os.path.join(ROOT, 'specs', 'selftest_catalogue.json')))
 
+_base = {}
+def base_failed(units):
+    """obligations that fail on the UNCHANGED tree (open known findings): they do not count as catching anything"""
+    out = set()
+    for u in units:
+        if u not in _base:
+            code = ("import sys,json; sys.path.insert(0,%r); import vf\n"
+                    "r=vf.verify_unit(%r,'quick'); print('@@'+json.dumps([f['ob'] for f in r['classified']['failed']]))\n") % (os.path.join(ROOT, 'tools'), u)
+            r = subprocess.run([sys.executable, '-c', code], capture_output=True, text=True)
+            line = [l for l in r.stdout.split('\n') if l.startswith('@@')]
+            _base[u] = set(json.loads(line[0][2:])) if line else set()
+        out |= _base[u]
+    return out
+
 def run(only=None):
     res = []
     for m in CAT:
@@ -34,7 +48,7 @@ def run(only=None):
             if not line:
                 res.append({'name': m['name'], 'status': 'tool-error', 'detail': r.stderr[-500:]}); continue
             out = json.loads(line[0][2:])
-            failed = sorted(set(f for u in out for f in u['failed']))
+            failed = sorted(set(f for u in out for f in u['failed']) - base_failed(m['units']))
             und = [x for u in out for x in u['undecided']]
             caught = any(e in failed for e in m['expect']) if m.get('expect') else bool(failed)
             res.append({'name': m['name'], 'property': m['property'], 'status': 'caught' if caught else ('undecided' if und and not failed else 'MISSED'),
